@@ -9,7 +9,7 @@ import gen as G
 PROP = 'C01'
 THEOREMS = ['pairs_spec_thm', 'pairs_length_thm', 'count_matrix_spec_thm', 'ctor_branches_agree',
             'emm_entry', 'no_cross_boundary', 'counted_pairs_are_lagged',
-            'short_traj_contributes_nothing', 'emm_fun_eq_method']
+            'short_traj_contributes_nothing', 'emm_fun_eq_method', 'fast_counts_are_label_counts_thm']
 CONFIGS = [dict(jit=True), dict(jit=False)]
 RULE = ('random trajectory sets (1-6 trajectories, lengths incl. 1 and below the lag, all label '
         'alphabets, uniform dtypes int8..int64, container forms) x lag 1..12; thorough adds all sets '
